@@ -62,6 +62,30 @@ def pkg_feed(conv_res, ys_type, consumer, inner_first=False):
     return {"a.go": src}
 
 
+def pkg_fieldargs(f0, f1, with_test=False, nested=False):
+    """derive calls whose ARGUMENTS are field expressions: the argument type changes with the field's type
+    while the call text stays the same; optionally a derive call that only a _test file uses and a nested
+    derive call that forces a second pass."""
+    src = ("package hist\n\ntype Item struct {\n\tN int\n\tS string\n}\n\ntype Basket struct {\n\tItems %s\n\tTags %s\n}\n\n"
+           "func sameItems(a, b *Basket) bool { return deriveEqualItems(a.Items, b.Items) }\n"
+           "func cmpTags(a, b *Basket) int { return deriveCompareTags(a.Tags, b.Tags) }\n"
+           "func hashItems(a *Basket) uint64 { return deriveHashItems(a.Items) }\n" % (f0, f1))
+    files = {}
+    if nested:
+        src += "func names(m map[string]int) []string { return deriveSort(deriveKeys(m)) }\n"
+    files["a.go"] = src
+    if with_test:
+        files["a_test.go"] = ("package hist\n\nimport \"testing\"\n\nfunc TestOnlyHere(t *testing.T) {\n"
+                              "\tif !deriveEqualOnlyInTest(&Item{N: 1}, &Item{N: 1}) {\n\t\tt.Fatal(\"equal\")\n\t}\n}\n")
+    return files
+
+
+def pkg_chanflow(elem):
+    """a channel-typed derive result flowing into another derive call"""
+    return {"a.go": "package hist\n\ntype %s float64\n\nfunc readings(station string) <-chan %s { return nil }\n\n"
+                    "func all(stations <-chan string) <-chan %s {\n\treturn deriveJoin(deriveFmap(readings, stations))\n}\n" % (elem, elem, elem)}
+
+
 def pkg_keys(key_type):
     return {"a.go": "package hist\n\nfunc use(m map[%s]int) []%s {\n\treturn deriveSort(deriveKeys(m))\n}\n" % (key_type, key_type)}
 
@@ -108,6 +132,17 @@ def histories(rng, tier):
         v1 = pkg_feed("int", "[]int", consumer)
         v2 = {"a.go": v1["a.go"] + "\nfunc other(a, b []string) bool { return deriveEqualStrings(a, b) }\n"}
         out.append(("feed-%s-unrelated" % consumer, "agree-flow", v1, v2))
+    # argument expressions whose type changes while the call text is unchanged; derive calls only used from a
+    # _test file; a nested derive call forcing a second pass
+    fa = ["[]Item", "[]*Item", "map[string]Item", "*Item", "[2]Item", "[]string", "map[int]string"]
+    for i in range(6 if tier == "quick" else 20):
+        a0, a1, b0, b1 = rng.choice(fa), rng.choice(fa), rng.choice(fa), rng.choice(fa)
+        wt, ne = rng.random() < 0.6, rng.random() < 0.6
+        out.append(("fieldargs-%d" % i, "agree-flow" if ne else "no-flow", pkg_fieldargs(a0, a1, wt, ne), pkg_fieldargs(b0, b1, True, ne)))
+    out.append(("fieldargs-test-nested", "agree-flow", pkg_fieldargs("[]Item", "[]string", True, True), pkg_fieldargs("[]*Item", "[]string", True, True)))
+    # the flowing type is RENAMED (the old signature mentions a type that no longer exists): must heal in one run
+    out.append(("chanflow-renamed", "agree-flow", pkg_chanflow("Celsius"), pkg_chanflow("Kelvin")))
+    out.append(("chanflow-same", "agree-flow", pkg_chanflow("Celsius"), {"a.go": pkg_chanflow("Celsius")["a.go"] + "\n// edited\n"}))
     out.append(("keys-retyped", "stale-flow", pkg_keys("string"), pkg_keys("int")))
     out.append(("keys-same", "agree-flow", pkg_keys("string"), {"a.go": pkg_keys("string")["a.go"] + "\n// edited\n"}))
     return out
@@ -227,8 +262,21 @@ def run(rep):
             if same:
                 continue
             trunc = oname != "v1-output"
-            # F7: a signature that flows into another derive call is stale (v1 output) or cut off mid-declaration
-            if cls in ("stale-flow", "agree-flow") and (trunc or cls == "stale-flow") and not (oname == "v1-output" and cls == "agree-flow"):
+            # F7 (known): a signature that flows into another derive call is stale and still VALID (history class
+            # stale-flow with the v1 output or a remnant of it), or the old file is a remnant cut off inside the
+            # signature line of such a producer function
+            f7 = False
+            if cls == "stale-flow" and (oname == "v1-output" or oname.startswith("v1[")):
+                f7 = True
+            elif trunc and cls in ("stale-flow", "agree-flow"):
+                import re
+                for m in re.finditer(rb"^func (deriveFmap\w*|deriveKeys\w*|deriveSort\w*)\(.*$", old or b"", re.M):
+                    pass
+                # cut inside a producer's signature: the remnant's last line starts a producer function and has no "{" yet
+                last = (old or b"").rsplit(b"\n", 1)[-1]
+                if re.match(rb"func (deriveFmap|deriveKeys|deriveSort|deriveJoin)", last) and not last.rstrip().endswith(b"{"):
+                    f7 = True
+            if f7:
                 f = known.get("F7")
                 if f and f["status"] == "known":
                     known_lines.setdefault("F7", "stale or cut-off signature of a derive call whose result feeds another derive call (%s, old=%s): run differs from from-scratch" % (name, oname))
